@@ -14,7 +14,8 @@ from engine.core import res, violation, seed_offsets
 ID = "C01"
 LEVEL = "exploration"
 WORKERS = {"quick": 12, "thorough": 16}
-RULE = ("complete product mu x 7 base points x 3^6 state offsets (states within delta=0.02 of a primary skipped and counted) for field / Jacobian / "
+RULE = ("system histories (create A, create B, use A, create A again, use B; all ordered pairs of mass ratios; newly forked process each) and the "
+        "complete product mu x 7 base points x 3^6 state offsets (states within delta=0.02 of a primary skipped and counted) for field / Jacobian / "
         "variational system / Lie derivative of every energy observable; trajectories: 3 spatial seeds x {fixed 4,6,8; adaptive 5,8} x 2 mu for energy constancy; "
         "non-trivial = state with z != 0 and vz != 0 not skipped; distinct = distinct (mu, state)")
 ASSUMPTIONS = [
@@ -311,7 +312,29 @@ def k_objects(params):
     return res(evals=n, nontrivial=n, viol=viol[:4], sample={"mu": mu, "objects": n, "common_offset": float(ref)})
 
 
-KINDS = {"states": k_states, "state_one": k_state_one, "trajectory": k_trajectory, "objects": k_objects}
+def k_history(params):
+    """several systems created and used one after the other in one (newly forked) process: every one of them, whenever it is used,
+    must still evaluate the field / Jacobian / variational equations of *its own* mass ratio"""
+    from hiten.system.base import System
+
+    viol, n, nt = {}, 0, 0
+    names = ["%s mu=%g" % (op, mu) for op, mu in params["ops"]]
+    for i, (op, mu) in enumerate(params["ops"]):
+        if op == "new":
+            _L[("sys", mu)] = System.from_mu(mu)
+        for bp in params["bases"]:
+            r = k_states({"mu": mu, "base": bp, "a": params["a"], "b": params["b"]})
+            n += r["evals"]
+            nt += r["nontrivial"]
+            for v in r["viol"]:
+                key = "history/" + v["key"]
+                viol.setdefault(key, violation(key, "step %d of the sequence %s in one process: %s" % (i + 1, names, v["what"]), v["observed"], v["expected"], ("history", params)))
+    return res(evals=n, nontrivial=nt, viol=list(viol.values()), sample={"history": names})
+
+
+FRESH_KINDS = ("history",)
+NONDETERMINISM_IS_VIOLATION = True  # field, Jacobian and energy are functions of (state, mu): a result that depends on what ran earlier in the process is a violation
+KINDS = {"states": k_states, "state_one": k_state_one, "trajectory": k_trajectory, "objects": k_objects, "history": k_history}
 
 
 def cases(tier, seed):
@@ -331,4 +354,10 @@ def cases(tier, seed):
             for method, order in (("fixed", 4), ("fixed", 6), ("fixed", 8), ("adaptive", 5), ("adaptive", 8)):
                 out.append(("trajectory", {"mu": mu, "y0": [y0[0] + 0.01 * o[2]] + y0[1:], "tf": 2.0, "steps": 2001, "method": method, "order": order, "tol": 1e-7}))
         out.append(("objects", {"mu": mu, "states": [[0.82, 0.0, 0.1, 0.0, 0.15, 0.05], [0.85, 0.02, -0.2, 0.1, 0.1, -0.3], [0.8, 0.0, 0.0, 0.0, 0.2, 0.0]]}))
+    # system histories, each in a newly forked process: create A, create B, use A again, create a second A -- all ordered pairs of mass ratios
+    hm = [3.0e-6, 0.01215, 0.3] if tier == "quick" else [3.0e-6, 9.5e-4, 0.01215, 0.3]
+    for m1 in hm:
+        for m2 in hm:
+            if m1 != m2:
+                out.append(("history", {"ops": [["new", m1], ["new", m2], ["use", m1], ["new", m1], ["use", m2]], "bases": ["mid", "L4"], "a": a, "b": b}))
     return out
